@@ -33,8 +33,13 @@ CLAIMED = {
         "technique": "abstract interpretation (sign -> linear polynomial in q) of the loss multiplier and its consumers; structural checks of intercept handling",
         "note": _COMMON_NOTE + " Declined: optimality of the fitted hyperplane, fraction of targets below it, weight/duplication equivalence (numerical).",
     },
+    "C06": {
+        "text": "Sibling-agreement and path rules over kmeans_l1.py/_kmeans_022.py: the L2 branch of fit/predict/transform is exactly KMeans.<same method>(self, ...) with every shared parameter forwarded (compared with the parsed scikit-learn signature) and the three dispatchers agree on the norm set; every distance primitive reachable from the L1 entry points is Manhattan (guard/metric agreement); the M-step is the coordinate-wise median of X[labels == i] stored as centre i and the returned labels/inertia come from an E-step on the returned centres; reductions over a cluster's rows are guarded against empty clusters. These are the structural parts of 'self-consistent in Manhattan geometry' and 'identical to KMeans'; numeric consistency of labels/inertia is declined.",
+        "technique": "structural delegation check against the parsed parent signature; guard/metric agreement over the L1 call graph; def-use checks of M-step/E-step; must-guard rule",
+        "note": _COMMON_NOTE + " Declined: label/inertia/centre consistency as numbers, equality with KMeans beyond delegation.",
+    },
 }
 
 NOT_APPLICABLE = {}
 
-FIX_COMMITS = ["6505037", "37050b8", "33dee10", "d99d4dd", "4f7666c", "028434d", "395087d", "d475015", "054609b", "c1a2672", "079fb2a", "e434baf", "260aa11", "297c1aa", "10b6b5d"]
+FIX_COMMITS = ["6505037", "37050b8", "33dee10", "d99d4dd", "4f7666c", "028434d", "395087d", "d475015", "054609b", "c1a2672", "079fb2a", "e434baf", "260aa11", "297c1aa", "5c15583", "10b6b5d"]
